@@ -150,6 +150,22 @@ fn previous_run_state(w: &World, dname: &str) -> Tree {
     snapshot(&w.root)
 }
 
+/// What is left of an earlier run that exported only some of the types: every file holds the stand-alone export of
+/// one of its types (fresh registry for every type, so a shared file is overwritten, not merged).
+fn partial_run_state(w: &World, dname: &str, rng: &mut Rng) -> Tree {
+    std::env::set_var("TS_RS_EXPORT_DIR", w.root.join(dname));
+    let mut order = w.uni.clone();
+    rng.shuffle(&mut order);
+    for &i in &order {
+        if rng.chance(2, 3) {
+            verif::reset_registry();
+            let _ = guarded(|| (w.reg[i].export)());
+        }
+    }
+    verif::reset_registry();
+    snapshot(&w.root)
+}
+
 fn random_op(w: &World, rng: &mut Rng, dname: &str) -> (Op, &'static str) {
     let ty = w.uni[rng.below(w.uni.len())];
     match rng.below(3) {
@@ -220,7 +236,7 @@ pub fn c06(args: &Args, reg: &[TypeEntry], log: &mut Log) {
         let cfg_i = rng.below(CONFIGS.len());
         let len = 1 + rng.below(if args.thorough() { 5 } else { 4 });
         let ops = (0..len).map(|_| random_op(&w, &mut rng, CONFIGS[cfg_i].dname)).collect();
-        plans.push((cfg_i, rng.below(3), ops));
+        plans.push((cfg_i, rng.below(4), ops));
     }
 
     for (cfg_i, init, ops) in plans {
@@ -231,11 +247,12 @@ pub fn c06(args: &Args, reg: &[TypeEntry], log: &mut Log) {
         }
         let canon = w.canonical(cfg.dname, &want, &mut cache);
         w.fresh();
-        let init_name = ["empty", "stale", "previous-run"][init];
+        let init_name = ["empty", "stale", "previous-run", "partial-previous-run"][init];
         let initial = match init {
             0 => Tree::new(),
             1 => stale_state(&w, cfg.dname),
-            _ => previous_run_state(&w, cfg.dname),
+            2 => previous_run_state(&w, cfg.dname),
+            _ => partial_run_state(&w, cfg.dname, &mut rng),
         };
         w.set_env(cfg);
         histories += 1;
